@@ -12,7 +12,10 @@ PROP = dict(
               "ticks at -1/0/+1 of the deadlines) with an observer subscribed to the will topics, and forced schedules.",
     level_text="The faithful model violates the property in four ways (C16_refuted_takeover_delayed, "
                "C16_refuted_delay_uncapped, C16_refuted_clean_reconnect, C16_refuted_delayed_retain: witnesses that replay "
-               "on the real broker).  For every interleaving (window model): C16_once_schedules (never twice, exactly "
+               "on the real broker).  For every history of operations: C16_content (every will publication carries topic, "
+               "payload, QoS and retain flag registered by that connection's CONNECT) and C16_publication_sources (a will is "
+               "published only by its own handler ending with an error while armed, or by the delayed-will tick from the "
+               "table).  For every interleaving (window model): C16_once_schedules (never twice, exactly "
                "once when the old handler is through), C16_cancel_schedules_refuted + C16_cancel_modulo_findings "
                "(cancellation holds exactly when the delayed will is registered before the new connection's "
                "willDelayed.Delete).  That the four findings are the ONLY violations of the sequential model is decided on "
@@ -25,8 +28,8 @@ PROP = dict(
     engines=[dict(hx="life", args=["C16"], model="life16"),
              dict(hx="takeover_sched", args=["C16"], model="takeover_sched")],
     theorems=["C16_refuted_takeover_delayed", "C16_refuted_delay_uncapped", "C16_refuted_clean_reconnect",
-              "C16_refuted_delayed_retain", "C16_once_schedules", "C16_cancel_schedules_refuted",
-              "C16_cancel_modulo_findings"],
+              "C16_refuted_delayed_retain", "C16_content", "C16_publication_sources", "C16_once_schedules",
+              "C16_cancel_schedules_refuted", "C16_cancel_modulo_findings"],
     model_files="coq/Session/Lifecycle.v coq/Conc/Takeover.v",
     rule="scenario product: 10 will configurations (delay 0/3/6/8, retain, QoS 0-2, expiry absent/0/4/6/20, MQTT 3/4/5) x 8 "
          "endings (normal, 0x04, network drop, second CONNECT, takeover clean 0/1, DISCONNECT 0x80, DISCONNECT raising a "
